@@ -4,7 +4,9 @@ from . import build
 
 
 def main():
-    r = build.ensure(["slack", "noslack", "so"], [("hstat", "so"), ("halloc", "slack"), ("hx", "slack"), ("hx", "noslack"), ("hhand", "slack"), ("htok", "slack"), ("hpf", "slack"), ("hpf", "noslack")])
+    r = build.ensure(["slack", "noslack", "so"], [("hstat", "so"), ("halloc", "slack"), ("hx", "slack"), ("hx", "noslack"), ("hhand", "slack"), ("htok", "slack"), ("hpf", "slack"), ("hpf", "noslack"), ("hsort", "slack"), ("hnorm", "slack")])
+    from . import ucdgen
+    ucdgen.ensure()
     print("built", r["key"])
 
 
